@@ -270,7 +270,7 @@ def run_case(ctx, name, params):
         bxs = gen.boxes(r, n, fam)
         precs = [None] * n
         if r.random() < 0.3:
-            precs = [r.choice([None, 1e-3, 0.01, 0.5, 1e-6]) for _ in range(n)]
+            precs = [r.choice([None, 1e-3, 0.01, 0.5, 1e-6, 0.05, 0.4, 0.3, 5.0]) for _ in range(n)]
         rr = vrng.HostileRandom(params["seed"], 0.2) if params["hostile"] else vrng.SeededRandom(params["seed"])
         vrng.install(rr)
         g = operators.RandomGenerator(params_for(bxs, precs))
